@@ -536,6 +536,32 @@ func RunTwin(serial *Exec, parallelism int, compare bool) (par *Exec, mon *Monit
 		if s.NumNodes != ref.NumNodes || len(s.Reg) != len(ref.Reg) {
 			differ("the number of registered nodes")
 		}
+		// Nodes are named by creation index. When the two runs created the nodes of this operation in a
+		// different order (two memoized binds of one height block build their right-hand sides in the
+		// enclosing scope, in queue order, and the queue order inside a height is not the same under the
+		// two stabilizers), index k no longer names the same node in both: what follows compares by
+		// index, and later operations address nodes by index, so the comparison ends here. Observer
+		// values and the counts above do not depend on the naming and have been compared.
+		lo := 0
+		if i > 0 {
+			lo = serial.Samples[i-1].Next
+		}
+		renamed := false
+		for id := lo; id < ref.Next && id < s.Next; id++ {
+			var a, b *NRef
+			if id < len(par.Nodes) {
+				a = par.Nodes[id]
+			}
+			if id < len(serial.Nodes) {
+				b = serial.Nodes[id]
+			}
+			if (a == nil) != (b == nil) || (a != nil && (a.Kind != b.Kind || a.Scope != b.Scope || fmt.Sprint(a.Decl) != fmt.Sprint(b.Decl))) {
+				renamed = true
+			}
+		}
+		if renamed {
+			break
+		}
 		top := func(e *Exec, sm Sample) (vals [][2]int, upd []int) {
 			inGraph := map[int]bool{}
 			for _, id := range sm.Reg {
